@@ -600,8 +600,8 @@ impl Check for C04 {
         }
         // (d) PRNG packet sequences x PRNG schedules x optional cut
         let count = match tier {
-            Tier::Quick => 60_000,
-            Tier::Thorough => 1_500_000,
+            Tier::Quick => 300_000,
+            Tier::Thorough => 6_000_000,
         };
         fams.push(Family::new("random_streams", count, false, |_i, rng| {
             let k = 1 + rng.usize_below(6);
